@@ -55,6 +55,8 @@ type Sched struct {
 	mu       sync.Mutex
 	Active   bool
 	Fine     bool // statement-level scheduling points (Pt) are live
+	Dup      bool // a DUP alternative (the peer retransmits the application answer about to be written twice more) is offered
+	dupN     int
 	Free     bool // free-running mode (race pass): no scheduler at all, modelled objects use the real primitives
 	threads  []*Thread
 	byGid    map[uint64]*Thread
@@ -308,6 +310,13 @@ func (mo *Monitor) Wake(f func()) {
 	mo.mu.Unlock()
 }
 
+// TakeDup returns (and clears) the number of extra copies the scheduler ordered for the write being applied.
+func TakeDup() int {
+	n := S.dupN
+	S.dupN = 0
+	return n
+}
+
 // Pt is a pure scheduling point at a statement of the code under test (inserted by tools/finepts). It exists only in
 // fine mode (S.Fine, switched on by the scenarios that explore interleavings between synchronisation operations);
 // everywhere else it returns at once.
@@ -484,6 +493,11 @@ func Run() (res Result) {
 			parkIdx = len(names)
 			names = append(names, "PARK")
 		}
+		dupIdx := -1
+		if len(en) > 0 && S.Dup && en[0].pending.Kind == "net.WriteAns" {
+			dupIdx = len(names)
+			names = append(names, "DUP")
+		}
 		step := len(S.Points)
 		choice := 0
 		if c, ok := S.devs[step]; ok {
@@ -505,6 +519,11 @@ func Run() (res Result) {
 		pt := Point{Chosen: choice}
 		pt.Enabled = names
 		S.Points = append(S.Points, pt)
+		if choice == dupIdx && dupIdx >= 0 {
+			// the default thread runs, and its write is delivered three times
+			S.dupN = 2
+			choice = 0
+		}
 		switch {
 		case choice < len(en):
 			th := en[choice]
